@@ -99,9 +99,10 @@ class CloudSync(Runnable):
         """
         Forget and discard state information, and drop any events in the queue.  This will trigger a walk.
         """
-        self.state.forget()
-        self.emgrs[0].forget()
-        self.emgrs[1].forget()
+        with self.state.lock:
+            self.state.forget()
+            self.emgrs[0].forget()
+            self.emgrs[1].forget()
 
     def set_need_walk(self, side, need_walk=True):
         self.emgrs[side].need_walk=need_walk
